@@ -104,9 +104,11 @@ class CSSMediaRule(cssrule.CSSRuleRules):
                 tokenizer, mediaqueryendonly=True, separateEnd=True
             )
             if '{' == self._tokenvalue(end) or self._prods.STRING == self._type(end):
-                self.media = cssutils.stylesheets.MediaList(parentRule=self)
+                newMedia = cssutils.stylesheets.MediaList(parentRule=self)
                 # TODO: remove special case
-                self.media.mediaText = mediatokens
+                # may raise, nothing is changed then
+                newMedia.mediaText = mediatokens
+                self.media = newMedia
                 ok = ok and self.media.wellformed
             else:
                 ok = False
@@ -237,23 +239,29 @@ class CSSMediaRule(cssrule.CSSRuleRules):
                 seq = []  # not used really
 
                 tokenizer = iter(cssrulestokens)
-                wellformed, expected = self._parse(
-                    braceOrEOF,
-                    seq,
-                    tokenizer,
-                    {
-                        'COMMENT': COMMENT,
-                        'CHARSET_SYM': atrule,
-                        'FONT_FACE_SYM': atrule,
-                        'IMPORT_SYM': atrule,
-                        'NAMESPACE_SYM': atrule,
-                        'PAGE_SYM': atrule,
-                        'MEDIA_SYM': atrule,
-                        'ATKEYWORD': atrule,
-                    },
-                    default=ruleset,
-                    new=new,
-                )
+                try:
+                    wellformed, expected = self._parse(
+                        braceOrEOF,
+                        seq,
+                        tokenizer,
+                        {
+                            'COMMENT': COMMENT,
+                            'CHARSET_SYM': atrule,
+                            'FONT_FACE_SYM': atrule,
+                            'IMPORT_SYM': atrule,
+                            'NAMESPACE_SYM': atrule,
+                            'PAGE_SYM': atrule,
+                            'MEDIA_SYM': atrule,
+                            'ATKEYWORD': atrule,
+                        },
+                        default=ruleset,
+                        new=new,
+                    )
+                except Exception:
+                    # e.g. an error raised in raising mode: reset
+                    self._media = oldMedia
+                    self._cssRules = oldCssRules
+                    raise
                 ok = ok and wellformed
 
             if ok:
